@@ -1,8 +1,7 @@
-import os
 from verif import Q
 
 META = {
- "level_text": "Bounded symbolic model checking (CBMC) of the real src/ssl/ssl_lru.c (save, load, forget, init and all static tree/list helpers; nothing stubbed inside the unit). (B) Inductive step: from EVERY cache state that satisfies an explicit representation invariant R (recency list head->tail doubly linked over exactly the allocated entries; index tree a binary search tree on the masked IDs over the same entries; store_ptr = 100*n) with n = 0..capacity entries, capacity 0..3 (store sizes 0, 99, 100, 199, 200, 250, 300, 399; capacity 4 in the thorough tier), one save/load/forget with symbolic session ID and parameters re-establishes R and produces exactly the transition of an abstract LRU map written from the documentation (load returns 1 with exactly the version/suite/master secret stored under that ID iff an enabled entry holds it and makes it most recently used; save of a new ID fills a fresh slot or replaces exactly the least recently used entry; forget disables in place; no other entry changes). The real init establishes R with the empty map, so the LRU-map behaviour follows for histories of ANY length at those capacities. (A) Independent cross-check without R: all histories of 3 operations (4 in the thorough tier), operation kinds and IDs symbolic, from the real initial state in lock-step with a ghost LRU map, with R and the abstraction function checked on the reached state (shows R is not vacuous / too strong for reachable states). Partial: the session-resumption half of C17 (T0 handshake flow) is not covered here; masking is an injective stand-in for HMAC.",
+ "level_text": "Bounded symbolic model checking (CBMC) of the real src/ssl/ssl_lru.c (save, load, forget, init and all static tree/list helpers; nothing stubbed inside the unit). (B) Inductive step: from EVERY cache state that satisfies an explicit representation invariant R (recency list head->tail doubly linked over exactly the allocated entries; index tree a binary search tree on the masked IDs over the same entries; store_ptr = 100*n) with n = 0..capacity entries, capacity 0..3 (store sizes 0, 99, 100, 199, 200, 250, 300, 399; capacity 4 in the thorough tier), one save/load/forget with symbolic session ID and parameters re-establishes R and produces exactly the transition of an abstract LRU map written from the documentation (load returns 1 with exactly the version/suite/master secret stored under that ID iff an enabled entry holds it and makes it most recently used; save of a new ID fills a fresh slot or replaces exactly the least recently used entry; forget disables in place; no other entry changes). The real init establishes R with the empty map, so the LRU-map behaviour follows for histories of ANY length at those capacities. (A) Independent cross-check without R: all histories of 3 operations (4 in the thorough tier, plus 5-operation histories with fixed operation kinds and symbolic IDs), operation kinds and IDs symbolic, from the real initial state in lock-step with a ghost LRU map, with R and the abstraction function checked on the reached state (shows R is not vacuous / too strong for reachable states). Partial: the session-resumption half of C17 (T0 handshake flow) is not covered here; masking is an injective stand-in for HMAC.",
  "level_note": "Trusted: CBMC 6.11 (cadical back end), loop models of memcpy/memcmp. The unit's byte-access helpers (br_enc/dec16be/32be, memcpy, memcmp) are rebound inside the harness TU to case-splitting equivalents that perform the same access through the original helper at a concrete entry-field address and FAIL the query for any store address that is not a field of a whole entry (C17_lru.h); CBMC's own pointer checks remain enabled for the unit's code and are disabled only inside harness-side code (one query, hist-*-fullchecks, runs with everything enabled). Ghost-model choices that follow the code's documentation rather than an idealised map (reported as deviations from the property text, shown by the three literal-scen* queries, which fail): a save under an ID the cache still holds (enabled or disabled) is rejected, a forgotten entry keeps its slot and recency position until it ages out, parameters saved with version 0 are born disabled.",
  "technique": "bounded symbolic model checking (CBMC/SAT): inductive step over an explicit representation invariant + bounded symbolic histories, both against a ghost abstract LRU map",
  "assumptions": [
@@ -103,6 +102,9 @@ def queries():
     qs.append(hist(200, 3, 3, "thorough", symstore=1))
     qs.append(hist(300, 4, 4, "thorough", opseq=(0, 0, 0, 0)))
     qs.append(hist(300, 4, 4, "thorough"))
+    qs.append(hist(250, 4, 3, "thorough"))
+    qs.append(hist(300, 5, 4, "thorough", opseq=(0, 0, 0, 1, 0)))
+    qs.append(hist(300, 5, 4, "thorough", opseq=(0, 0, 2, 0, 0)))
     # --- thorough: capacity 4, fully symbolic IDs/secrets
     for opk in (0, 1, 2):
         qs.append(step(400, 4, opk, "thorough"))
@@ -111,11 +113,10 @@ def queries():
     # --- literal reading of the property text on three scripted histories where the code's
     #     documented behaviour differs (these FAIL on the current tree: see C17_literal.c; each is
     #     isolated in its own query with its own assertion text, for known_findings.txt)
-    if True:
-        for scen, sl in ((1, 100), (2, 100), (3, 200)):
-            qs.append(Q("literal-scen%d-S%d" % (scen, sl), "C17_literal.c",
-                        defs=["-DSTORE_LEN=%d" % sl, "-DSCEN=%d" % scen], unwind=50,
-                        unwindset=tree_unwind(sl // 100), tier="quick", timeout=QT,
-                        fsarray=max(64, sl + 8), backend="cadical", objbits=10,
-                        desc="literal reading of the property text, scripted history %d (fails on the current tree: documented behaviour of ssl_lru.c deviates from the property text)" % scen))
+    for scen, sl in ((1, 100), (2, 100), (3, 200)):
+        qs.append(Q("literal-scen%d-S%d" % (scen, sl), "C17_literal.c",
+                    defs=["-DSTORE_LEN=%d" % sl, "-DSCEN=%d" % scen], unwind=50,
+                    unwindset=tree_unwind(sl // 100), tier="quick", timeout=QT,
+                    fsarray=max(64, sl + 8), backend="cadical", objbits=10,
+                    desc="literal reading of the property text, scripted history %d (fails on the current tree: documented behaviour of ssl_lru.c deviates from the property text)" % scen))
     return qs
